@@ -121,6 +121,9 @@ func (h *NFSProcedureHandler) handleSetattr(body io.Reader, reply *RPCReply, aut
 		if sattr.Size > uint64(math.MaxInt64) {
 			return nfsErrorWithWcc(reply, NFSERR_INVAL), nil
 		}
+		if h.server.handler.exceedsMaxFileSize(sattr.Size) {
+			return nfsErrorWithWcc(reply, NFSERR_FBIG), nil
+		}
 		// Truncate follows symbolic links: a link has no size to set
 		if preAttrs.Mode&os.ModeSymlink != 0 {
 			return nfsErrorWithWcc(reply, NFSERR_INVAL), nil
